@@ -30,6 +30,19 @@ type Proxy struct {
 	mu     sync.Mutex
 	In     [][]byte // client -> daemon, one entry per connection
 	Out    [][]byte // daemon -> client
+	conns  []net.Conn
+}
+
+// CutAll resets every connection that currently passes through the proxy (new connections are accepted as before).
+func (p *Proxy) CutAll() int {
+	p.mu.Lock()
+	cs := p.conns
+	p.conns = nil
+	p.mu.Unlock()
+	for _, c := range cs {
+		_ = c.Close()
+	}
+	return len(cs) / 2
 }
 
 func NewProxy(target string) (*Proxy, error) {
@@ -62,6 +75,7 @@ func (p *Proxy) serve(c net.Conn) {
 	idx := len(p.In)
 	p.In = append(p.In, nil)
 	p.Out = append(p.Out, nil)
+	p.conns = append(p.conns, c, t)
 	p.mu.Unlock()
 	cp := func(dst, src net.Conn, rec *[][]byte) {
 		buf := make([]byte, 32<<10)
